@@ -1,0 +1,322 @@
+//go:build verif
+
+package redisemu
+
+// Accessors used only by the external verification harness (build tag "verif").
+// Nothing here is compiled into a normal build.
+
+import (
+	"fmt"
+	"math/bits"
+	"sort"
+	"strings"
+
+	"github.com/jimsnab/go-lane"
+)
+
+// VerifHash exposes the key hash used by every dictionary.
+func VerifHash(s string) uint64 {
+	return calcSipHash(s)
+}
+
+// VerifParse runs the request deserializer on raw bytes. A panic is reported
+// instead of propagated so the caller can record it.
+func VerifParse(l lane.Lane, content []byte) (rendered string, length int, valid bool, panicked string) {
+	defer func() {
+		if r := recover(); r != nil {
+			panicked = fmt.Sprintf("%v", r)
+		}
+	}()
+	rd := newRespDeserializer(l, content)
+	v, n, ok := rd.deserializeNext()
+	if !ok {
+		return "", 0, false, ""
+	}
+	return verifRender(v), n, true, ""
+}
+
+func verifHex(s string) string {
+	return fmt.Sprintf("%x", s)
+}
+
+func verifRender(v respValue) string {
+	switch o := v.data.(type) {
+	case respInt:
+		return fmt.Sprintf("(int %d)", int64(o))
+	case respBulkString:
+		return "(bulk " + verifHex(string(o)) + ")"
+	case respBlobError:
+		return "(bloberr " + verifHex(string(o)) + ")"
+	case respSimpleString:
+		return "(simple " + verifHex(string(o)) + ")"
+	case respErrorString:
+		return "(err " + verifHex(string(o)) + ")"
+	case respDouble:
+		return fmt.Sprintf("(double %v)", float64(o))
+	case respBool:
+		if bool(o) {
+			return "(bool 1)"
+		}
+		return "(bool 0)"
+	case respBigNumber:
+		return "(big " + o.bn.String() + ")"
+	case respVerbatimString:
+		return "(verb " + verifHex(o.format) + " " + verifHex(o.text) + ")"
+	case respArray:
+		var sb strings.Builder
+		sb.WriteString("(arr")
+		for _, e := range o {
+			sb.WriteString(" ")
+			sb.WriteString(verifRender(e))
+		}
+		sb.WriteString(")")
+		return sb.String()
+	case respMap:
+		var sb strings.Builder
+		sb.WriteString("(map")
+		for _, k := range o.order {
+			sb.WriteString(" ")
+			sb.WriteString(verifRender(k))
+			sb.WriteString(" ")
+			sb.WriteString(verifRender(o.mustGet(k)))
+		}
+		sb.WriteString(")")
+		return sb.String()
+	case respSet:
+		items := make([]string, 0, len(o))
+		for e := range o {
+			items = append(items, verifRender(e))
+		}
+		sort.Strings(items)
+		return "(set " + strings.Join(items, " ") + ")"
+	case respAttributeMap:
+		items := make([]string, 0, len(o))
+		for k, e := range o {
+			items = append(items, verifRender(k)+" "+verifRender(e))
+		}
+		sort.Strings(items)
+		return "(attr " + strings.Join(items, " ") + ")"
+	case respPush:
+		var sb strings.Builder
+		sb.WriteString("(push " + verifHex(o.kind))
+		for _, e := range o.data {
+			sb.WriteString(" ")
+			sb.WriteString(verifRender(e))
+		}
+		sb.WriteString(")")
+		return sb.String()
+	case respNull:
+		return "(null)"
+	case nil:
+		return "(nil)"
+	default:
+		return fmt.Sprintf("(other %T)", v.data)
+	}
+}
+
+// VerifSerialize renders a request-deserialized value back through the reply serializer.
+func VerifSerialize(l lane.Lane, content []byte) (out []byte, ok bool) {
+	defer func() {
+		if r := recover(); r != nil {
+			ok = false
+		}
+	}()
+	rd := newRespDeserializer(l, content)
+	v, _, valid := rd.deserializeNext()
+	if !valid {
+		return nil, false
+	}
+	return v.serialize(), true
+}
+
+// VerifResp3To2 down-converts a deserialized value and serializes the result.
+func VerifResp3To2(l lane.Lane, content []byte) (out []byte, ok bool) {
+	defer func() {
+		if r := recover(); r != nil {
+			ok = false
+		}
+	}()
+	rd := newRespDeserializer(l, content)
+	v, _, valid := rd.deserializeNext()
+	if !valid {
+		return nil, false
+	}
+	v2 := resp3To2(v)
+	return v2.serialize(), true
+}
+
+// VerifDictLayout describes one dictionary: log2 of the bucket count and the bucket of every key.
+type VerifDictLayout struct {
+	LogSize  int
+	Count    int
+	Removals int
+	Buckets  map[string]int
+}
+
+func verifLayout(d *redisDict) VerifDictLayout {
+	out := VerifDictLayout{
+		LogSize:  bits.TrailingZeros32(uint32(len(d.buckets))),
+		Count:    d.count,
+		Removals: d.removals,
+		Buckets:  map[string]int{},
+	}
+	for i, item := range d.buckets {
+		if item != nil {
+			out.Buckets[item.key] = i
+		}
+	}
+	return out
+}
+
+// VerifKeyDump is the internal view of one stored key (expired keys included).
+type VerifKeyDump struct {
+	Key        string
+	Type       string
+	Id         uint64
+	ExpiresNs  int64 // 0 = no expiry
+	Str        string
+	List       []string
+	ListBack   []string // the list walked tail -> head, reversed; must equal List
+	ListCount  int
+	Hash       map[string]string
+	Set        []string
+	SubLayout  *VerifDictLayout
+	PayloadNil bool
+}
+
+// VerifDbDump is the internal view of one database.
+type VerifDbDump struct {
+	Exists       bool
+	Dirty        bool
+	ObjectNumber uint64
+	Layout       VerifDictLayout
+	Keys         []VerifKeyDump
+	Waiters      map[string]int // key -> queue length in the wait table
+}
+
+// VerifDump returns the internal state of database index (taking its lock).
+func (eng *RedisEmu) VerifDump(index int) (out VerifDbDump) {
+	eng.dss.mu.Lock()
+	ds, exists := eng.dss.dbs[index]
+	eng.dss.mu.Unlock()
+	if !exists {
+		return
+	}
+	out.Exists = true
+	ds.mu.Lock()
+	defer ds.mu.Unlock()
+
+	out.Dirty = ds.data.dirty
+	out.ObjectNumber = ds.dataObjectNumber
+	out.Layout = verifLayout(ds.data)
+	out.Waiters = map[string]int{}
+	for name, owl := range ds.waitingClients.table {
+		n := 0
+		for ref := owl.queueHead; ref != nil; ref = ref.queueNext {
+			n++
+		}
+		out.Waiters[name] = n
+	}
+	for _, item := range ds.data.buckets {
+		if item == nil {
+			continue
+		}
+		sk := item.value.(*storeKey)
+		kd := VerifKeyDump{Key: item.key, Id: sk.id, Type: storeKeyType(sk.flags)}
+		if sk.expiresAt.Before(maxTime) {
+			kd.ExpiresNs = sk.expiresAt.UnixNano()
+		}
+		if sk.payload == nil {
+			kd.PayloadNil = true
+		} else if b := sk.getStringBytes(); flagHasOne(sk.flags, FLAG_KEY_TYPE_STRING) {
+			kd.Str = string(b)
+		} else if sl := sk.getList(); sl != nil {
+			kd.ListCount = sl.count
+			for p := sl.head; p != nil; p = p.next {
+				kd.List = append(kd.List, string(p.element))
+			}
+			back := []string{}
+			for p := sl.tail; p != nil; p = p.prev {
+				back = append(back, string(p.element))
+			}
+			for i := len(back) - 1; i >= 0; i-- {
+				kd.ListBack = append(kd.ListBack, back[i])
+			}
+		} else if flagHasOne(sk.flags, FLAG_KEY_TYPE_HASH_TABLE) {
+			if d, ok := sk.payload.(*redisDict); ok {
+				kd.Hash = map[string]string{}
+				for it := d.createIterator(); it.next(); {
+					s, _ := it.value.(string)
+					kd.Hash[it.key] = s
+				}
+				l := verifLayout(d)
+				kd.SubLayout = &l
+			}
+		} else if flagHasOne(sk.flags, FLAG_KEY_TYPE_SET) {
+			if d, ok := sk.payload.(*redisDict); ok {
+				for it := d.createIterator(); it.next(); {
+					kd.Set = append(kd.Set, it.key)
+				}
+				sort.Strings(kd.Set)
+				l := verifLayout(d)
+				kd.SubLayout = &l
+			}
+		}
+		out.Keys = append(out.Keys, kd)
+	}
+	sort.Slice(out.Keys, func(i, j int) bool { return out.Keys[i].Key < out.Keys[j].Key })
+	return
+}
+
+// VerifDbIndexes lists the database indexes that currently have an object.
+func (eng *RedisEmu) VerifDbIndexes() []int {
+	eng.dss.mu.Lock()
+	defer eng.dss.mu.Unlock()
+	out := []int{}
+	for i := range eng.dss.dbs {
+		out = append(out, i)
+	}
+	sort.Ints(out)
+	return out
+}
+
+// VerifSaveNow runs one pass of the periodic saver synchronously.
+func (eng *RedisEmu) VerifSaveNow() error {
+	return eng.dss.save(eng.l)
+}
+
+// VerifClientWord returns the capture word of a client (-1 when unknown).
+func VerifClientWord(id int64) int32 {
+	clientsMu.Lock()
+	defer clientsMu.Unlock()
+	cs, ok := clients[id]
+	if !ok {
+		return -1
+	}
+	return cs.blocked
+}
+
+// VerifClientCount returns the size of the process-global client registry.
+func VerifClientCount() int {
+	clientsMu.Lock()
+	defer clientsMu.Unlock()
+	return len(clients)
+}
+
+// Bit helpers (pure functions) exposed for differential checks.
+func VerifExtractBitfield(b []byte, start, end int) int64  { return extractBitfield(b, start, end) }
+func VerifSignExtend(v int64, bits int) int64              { return signExtend(v, bits) }
+func VerifSetBitfield(b []byte, start, width int, v int64) { setBitfield(b, start, width, v) }
+func VerifCountSetBitRange(b []byte, start, end int) int   { return countSetBitRange(b, start, end) }
+func VerifIsSignedSumOverflow(a, b int64, bits int) bool   { return isSignedSumOverflow(a, b, bits) }
+func VerifIsUnsignedOverflow(v int64, bits int) bool       { return isUnsignedOverflow(v, bits) }
+func VerifSaturateValue(s bool, v int64, bits int) int64   { return saturateValue(s, v, bits) }
+func VerifGlob(pattern, candidate string) bool             { return redisGlob([]rune(pattern), []rune(candidate)) }
+func VerifFindBit(b []byte, s, e, w int, bit, noEnd bool) (pos int, panicked bool) {
+	defer func() {
+		if r := recover(); r != nil {
+			panicked = true
+		}
+	}()
+	return findBit(b, s, e, w, bit, noEnd), false
+}
